@@ -184,7 +184,9 @@ inline void set_field(uint *A, const size_t len, const size_t index,
  * @param fin Retrieve until end-1
  */
 inline uint get_var_field(const uint *A, const size_t ini, const size_t fin) {
-  if (ini == fin + 1)
+  // Empty field; callers compute fin as "ini + width - 1" in 32 bits, which
+  // wraps around for ini == 0 and width == 0
+  if (ini == fin + 1 || (uint)(fin - ini + 1) == 0)
     return 0;
   size_t i = ini / W, j = ini - W * i;
   uint result;
@@ -206,7 +208,8 @@ inline uint get_var_field(const uint *A, const size_t ini, const size_t fin) {
  */
 inline void set_var_field(uint *A, const size_t ini, const size_t fin,
                           const uint x) {
-  if (ini == fin + 1)
+  // Empty field (see get_var_field)
+  if (ini == fin + 1 || (uint)(fin - ini + 1) == 0)
     return;
   uint i = ini / W, j = ini - i * W;
   uint len = (fin - ini + 1);
